@@ -135,3 +135,41 @@ func H20b() {
 	check(n2 == want, "count == number of caller bytes that reached the underlying writer")
 	h20Same(lw.got, model[:budget], "bytes that reached the writer are a prefix of the full rendering")
 }
+
+// H20n: writers stacked on one another and used in turn. inner = NewWriter(rec, p1),
+// outer = NewWriter(inner, p2); three Write calls, each to the inner or to the outer writer
+// (symbolic), with symbolic texts. What the inner writer is handed - directly, or as the outer
+// writer's rendering of its own chunks - must come out as the one-shot rendering of the
+// concatenation: creating or using another writer on top of a writer does not change it.
+func H20n() {
+	n, p := param("n"), param("p")
+	p1, p2 := h20Bytes(p), h20Bytes(p)
+	text := h20Bytes(n)
+	c1 := symRange(0, n)
+	c2 := symRange(0, n)
+	assume(c1 <= c2)
+	rec := &h20Rec{}
+	inner := NewWriter(rec, string(p1))
+	outer := NewWriter(inner, string(p2))
+	var outerText, innerText []byte
+	for _, ch := range [][]byte{text[:c1], text[c1:c2], text[c2:]} {
+		toOuter := symBool()
+		var k int
+		var err error
+		if toOuter {
+			before, _ := h20Model(p2, outerText)
+			outerText = append(outerText, ch...)
+			after, _ := h20Model(p2, outerText)
+			innerText = append(innerText, after[len(before):]...)
+			k, err = outer.Write(append([]byte{}, ch...))
+		} else {
+			innerText = append(innerText, ch...)
+			k, err = inner.Write(append([]byte{}, ch...))
+		}
+		check(k == len(ch), "successful Write reports the full length of its argument (stacked writers)")
+		check(err == nil, "Write into an accepting writer returns no error (stacked writers)")
+	}
+	want, _ := h20Model(p1, innerText)
+	reach("compared")
+	h20Same(rec.got, want, "stacked writers: output == one-shot rendering of everything the inner writer was handed")
+}
